@@ -11,7 +11,8 @@ THEOREMS = ["C17_combine", "C17_combine_sorted", "C17_filter", "C17_next_use", "
             "C17_schedule_interleaves", "C17_buffet_run_binding", "C17_buffet_machine",
             "C17_buffet_fills_writebacks", "C17_bounds", "C17_line_granular", "C17_cache_machine",
             "C17_schedule_is_sort", "C17_sort_binds", "C17_cache_refines_min", "C17_policy_bounds",
-            "C17_cache_bounds", "C17_monotone", "C17_cache_tie_refuted",
+            "C17_cache_bounds", "C17_monotone", "C17_monotone_cases", "C17_monotone_pins_refuted",
+            "C17_cache_tie_refuted",
             "C17_model_meets_spec", "C17_model_meets_spec_cache", "C17_model_meets_spec_no_cache"]
 COQ_IMPORTS = "From FT Require Import Model.Base Model.Obs Model.C17Traffic Model.C17Check."
 CHECK_VO = ["Model/C17Check.v"]
@@ -37,10 +38,9 @@ TRUSTED = ["Coq 8.16.1 kernel (coqc; coqchk in the thorough tier); vm_compute us
            "row lists), tied to the working tree by the differential correspondence check of this run",
            "harness: harness/check.py, harness/props/c17.py, harness/c17_util.py (writes the CSV traces, builds "
            "Format objects, lists the temporary directory before/after), CPython 3.12",
-           "the monotonicity in capacity of the replacement policy min_run over a case's capacities (a property of the "
-           "specification, not of the code; proved without staging pins as C17_monotone) is decided by the Coq-defined oracle on the implementation's and the "
-           "model's outputs of this run, not by a universally quantified theorem; every other clause of the oracle "
-           "is proved for the model outside region 1 (C17_model_meets_spec, C17_cache_refines_min)"]
+           "every clause of the oracle is proved for the model outside the known-finding regions 1 and 2 "
+           "(C17_model_meets_spec); optimality of the reference policy min_run is not proved (it is not an oracle "
+           "clause); the Format tensors are built through fibertree itself along six construction paths"]
 ASSUMPTIONS = ["trace files are well formed: rows of the rank's depth, non-negative integers, stamps non-decreasing",
                "bindings have distinct (tensor, rank, type) and bind a rank of their tensor, so objects of "
                "different bindings never collide in objs[tensor][type]",
@@ -51,11 +51,10 @@ EXPLANATION = ("theorems: combine = stable sort; filter = membership filter; nex
                "(C17_buffet_fills_writebacks); cache state machine refines the furthest-next-use-with-bypass policy "
                "(C17_cache_machine) and, outside region 1, the model's per-tensor read bits equal the oracle's "
                "min_run on its own merged sequence and the run never raises (C17_cache_refines_min); bounds of the "
-               "policy (cold misses <= fills <= reads) for the policy and per tensor on the model "
-               "(C17_policy_bounds, C17_cache_bounds); C17_monotone: fills of the policy never increase with the "
-               "capacity for schedules without staging pins; line granularity; C17_model_meets_spec: outside "
-               "region 1 the model meets every oracle clause given the monotonicity over the case's capacities, "
-               "which stays oracle-checked on every case; refuted under stamp ties (region 1, known finding)")
+               "policy (C17_policy_bounds, C17_cache_bounds); monotonicity in the capacity without staging pins "
+               "(C17_monotone, C17_monotone_cases), refuted with staging pins (C17_monotone_pins_refuted, region 2); "
+               "line granularity; C17_model_meets_spec: outside the known-finding regions 1 (stamp ties) and 2 "
+               "(staging pins at two or more capacities) the model meets the whole oracle, unconditionally")
 
 
 # ------------------------------------------------------------------ generator
@@ -122,6 +121,27 @@ def has_ties(case):
             if x[0] == y[0] and line_of(case, b, x[3]) != line_of(case, b, y[3]):
                 return True
     return False
+
+
+def has_staging(case):
+    """some binding with a write trace (the cache pins intermediate writes) has an access at a position
+    beyond the shape of its rank: mirror of C17Check.has_staging"""
+    for b in case["bindings"]:
+        if b["write"] is None:
+            continue
+        t = case["tensors"][b["t"]]
+        shape = t["shape"][t["ranks"].index(b["r"])]
+        if any(r[2] >= shape for r in (b["read"] or []) + b["write"]):
+            return True
+    return False
+
+
+def pins_gate(case):
+    """region 2 (cache runs at >= 2 capacities of a case with a staging access) is a known finding: fills can
+    increase with the capacity.  Until it is registered only one capacity is run for such cases."""
+    if len(case["caps"]) >= 2 and has_staging(case) and not (2 in registered_regions() or os.environ.get("C17_PINS")):
+        case["caps"] = case["caps"][:1]
+    return case
 
 
 def gen_case(rng, ties=None, nb=None):
@@ -279,15 +299,28 @@ def registered_regions():
 
 def streams(tier, rng):
     n = 600 if tier == "quick" else 6000
-    yield ("random", [gen_case(rng) for _ in range(n)], False)
-    yield ("multi-binding-no-ties", [gen_case(rng, ties=False, nb=3) for _ in range(n // 3)], False)
-    yield ("shared-rank", [gen_shared(rng) for _ in range(n // 6)], False)
-    yield ("built-tensors", [gen_built(rng) for _ in range(n // 4)], False)
+    yield ("random", [pins_gate(gen_case(rng)) for _ in range(n)], False)
+    yield ("multi-binding-no-ties", [pins_gate(gen_case(rng, ties=False, nb=3)) for _ in range(n // 3)], False)
+    yield ("shared-rank", [pins_gate(gen_shared(rng)) for _ in range(n // 6)], False)
+    yield ("built-tensors", [pins_gate(gen_built(rng)) for _ in range(n // 4)], False)
     if 1 in registered_regions() or os.environ.get("C17_TIES"):
         # same-step read/write to different lines with cache runs: known finding, region 1
-        yield ("cache-ties", [gen_case(rng, ties=True) for _ in range(n // 6)], False)
+        yield ("cache-ties", [pins_gate(gen_case(rng, ties=True)) for _ in range(n // 6)], False)
+    if 2 in registered_regions() or os.environ.get("C17_PINS"):
+        # staging pins + two capacities: fills can increase with the capacity (known finding, region 2);
+        # the first case is the witness of C17_monotone_pins_refuted
+        yield ("cache-pins", [copy.deepcopy(PIN_WITNESS)] + [gen_built(rng) for _ in range(n // 12)], False)
     if tier == "thorough":
         yield ("exhaustive-1rank", list(exhaustive_small()), True)
+
+
+PIN_WITNESS = {"L": 1, "tensors": [{"ranks": [0], "shape": [3], "build": 3, "pts": [[0]]},
+                                    {"ranks": [0], "shape": [3], "build": 0, "pts": [[0], [1]]}],
+               "bindings": [{"t": 1, "r": 0, "type": 0, "foot": 32, "evict": None,
+                             "read": [[[1], [3], 2], [[5], [5], 2]], "write": [[[1], [3], 3]]},
+                            {"t": 1, "r": 0, "type": 1, "foot": 16, "evict": None,
+                             "read": None, "write": [[[2], [4], 3], [[5], [5], 0]]}],
+               "line": 64, "bcap": 64, "caps": [0, 64], "fin": None, "ffil": None, "fn": 1, "ffn": 1}
 
 
 def exhaustive_small():
@@ -394,4 +427,4 @@ def shrinks(case):
 
 
 def search(disagreeing, rng, rnd):
-    return [gen_case(rng) for _ in range(120)]
+    return [pins_gate(gen_case(rng)) for _ in range(120)]
